@@ -19,16 +19,18 @@ EXTENDS Integers, Sequences
 Kinds == {"Point", "Matrix", "Color", "Length", "Move", "Line", "Close", "QuadraticBezier",
           "CubicBezier", "Arc", "Path", "PathT", "Subpath", "Rect", "RRect", "Circle", "Ellipse",
           "SimpleLine", "Polyline", "Polygon", "Group", "GroupNested", "GroupMixed", "Text", "Image",
-          "RectLen", "CircleLen"}       \* shapes whose position is still an unrendered Length (e.g. x="10%")
+          "RectLen", "CircleLen",       \* shapes whose position is still an unrendered Length (e.g. x="10%")
+          "TextLen", "ImageLen", "MatrixLen"}   \* text, image and matrix whose position / translation is a Length (x="1in", translate(1in,2in))
 Segments == {"Move", "Line", "Close", "QuadraticBezier", "CubicBezier", "Arc"}
 Shapes   == {"Path", "PathT", "Rect", "RRect", "Circle", "Ellipse", "SimpleLine", "Polyline", "Polygon"}
 LenShapes == {"RectLen", "CircleLen"}      \* cannot be decomposed before they are rendered: only copy and * apply
+LenOthers == {"TextLen", "ImageLen", "MatrixLen"}
 Groups   == {"Group", "GroupNested", "GroupMixed"}     \* GroupMixed: Text, Image, Path and a nested group as children
 
 \* derivation operations available per kind
 OpsOf(k) ==
   {"copy"} \cup
-  (IF k \in Segments \cup Shapes \cup LenShapes \cup Groups \cup {"Point", "Matrix", "Text", "Image", "Subpath"} THEN {"mul"} ELSE {}) \cup
+  (IF k \in Segments \cup Shapes \cup LenShapes \cup Groups \cup {"Point", "Matrix", "Text", "Image", "Subpath", "TextLen", "ImageLen"} THEN {"mul"} ELSE {}) \cup
   (IF k \in Shapes \cup {"Text", "Image"} THEN {"abs"} ELSE {}) \cup
   (IF k \in Shapes \cup {"Subpath"} THEN {"topath"} ELSE {}) \cup
   (IF k = "Matrix" THEN {"inv", "matmul"} ELSE {}) \cup
@@ -54,8 +56,11 @@ MutsOf(k) ==
     [] k \in {"Path", "PathT"} -> {"setpt", "imul", "reify", "paint", "setfill", "sw", "tredit", "values", "append",
                           "delete", "setitem", "setid", "reverse", "iadd_str"}
     [] k = "Subpath" -> {"setpt", "imul", "reverse"}
-    [] k \in {"Rect", "RRect", "Circle", "Ellipse", "SimpleLine", "RectLen", "CircleLen"} ->
+    [] k \in {"Rect", "RRect", "Circle", "Ellipse", "SimpleLine"} ->
                        {"setgeom", "imul", "reify", "paint", "setfill", "sw", "tredit", "values", "setid"}
+    [] k \in LenShapes -> {"setgeom", "scalegeom", "imul", "reify", "paint", "setfill", "sw", "tredit", "values", "setid"}   \* scalegeom: x *= 2, the in-place operator of the Length
+    [] k \in {"TextLen", "ImageLen"} -> {"scalegeom", "imul", "values", "tredit"}
+    [] k = "MatrixLen" -> {"scalegeom", "post_translate", "seta"}
     [] k \in {"Polyline", "Polygon"} ->
                        {"setpt", "ptappend", "imul", "reify", "paint", "sw", "tredit", "values"}
     [] k \in Groups -> {"imul", "reify", "values", "append", "delete", "childedit", "childtredit", "setid"}
